@@ -77,7 +77,7 @@ class Pool:
 
 
 def tlc_replay(report, pool, module, worker_fn, consts=None, invariants=(), label=None,
-               on_result=None, export_filter=None, **kw):
+               on_result=None, export_filter=None, allow_empty=False, **kw):
     """Run TLC on `module`; every exported behaviour is replayed by worker_fn
     (in the pool).  worker_fn(tag, rec) -> (results, info)."""
     def on_export(tag, rec):
@@ -86,6 +86,8 @@ def tlc_replay(report, pool, module, worker_fn, consts=None, invariants=(), labe
         pool.submit(worker_fn, tag, rec)
     res = tlc.run(module, consts=consts, invariants=invariants, on_export=on_export, label=label, **kw)
     tlc.require_ok(res, report.pid)
+    if not res['exports'] and not allow_empty:
+        common.machinery_exit(report.pid, 'vacuous TLC run %s: no behaviour was exported (simulation depth too small?)' % (label or module))
     report.add_tlc(tlc.stats_of(res))
     pool.drain(report, on_result)
     return res
